@@ -12,6 +12,7 @@
 #include <gudhi/Matrix.h>
 #include <gudhi/persistence_matrix_options.h>
 
+#include <functional>
 #include <map>
 #include <set>
 #include <sstream>
@@ -213,7 +214,7 @@ struct Rules {
       case SWAP_C: return has(o.a) && has(o.b);
       case ERASE_ROW:  // "assumes that the row is empty"
         if (!m.row_empty(o.a)) return false;
-        if (S.swaps && S.mapc && !m.known.count(o.a)) return false;
+        if (S.swaps && !m.known.count(o.a)) return false;  // the row index is looked up in the swap maps
         return true;
       case TOUCH: return has(o.a);
       default: return false;
@@ -232,6 +233,12 @@ struct Rules {
       if (!k1 || !k2) return S.mapc ? "row_unknown_to_swap_maps" : "row_beyond_swap_vectors";
     }
     return "";
+  }
+
+  // situations in which the code cannot do anything but die (a null representative is dereferenced, a vector is
+  // indexed past its end): after three deaths in one process the remaining instances are counted, not executed
+  bool certain(const std::string& why) const {
+    return why == "target_class_is_the_empty_column" || why == "row_beyond_swap_vectors";
   }
 
   Dense combine(const Dense& target, const Dense& source, int kt, int ks) const {
